@@ -60,7 +60,7 @@ res["patch_applies"] = rc == 0
 rc1, out1 = sh("timeout 1500 " + demo_cmd)
 res["demo_with_change_rc"] = rc1
 res["demo_with_change_tail"] = out1[-1500:]
-pkgs = " ".join(meta.get("packages_tested") or [])
+pkgs = " ".join(sorted({t for item in (meta.get("packages_tested") or []) for t in re.findall(r"\./[\w./-]+", str(item))}))
 if "--tests" in sys.argv:
     pkgs = sys.argv[sys.argv.index("--tests") + 1]
 # run existing tests without the demonstration files
@@ -68,6 +68,12 @@ for p in placed:
     try: os.remove(os.path.join(WT, p))
     except OSError: pass
 rc2, out2 = sh("timeout 2700 go test -vet=off -count=1 -timeout 40m " + pkgs) if pkgs else (None, "")
+retries = 0
+while pkgs and rc2 != 0 and retries < 2:
+    # timing-sensitive tests of the repository flake when the machine is oversubscribed: retry serially
+    retries += 1
+    rc2, out2 = sh("timeout 2700 go test -vet=off -count=1 -p 1 -parallel 2 -timeout 40m " + pkgs)
+res["existing_tests_retries"] = retries
 res["existing_tests_rc"] = rc2
 res["existing_tests_tail"] = out2[-800:]
 sh("git checkout -q -- . ; git clean -fdq -e SEED")
